@@ -122,7 +122,7 @@ def run(tier, seed):
     v.sample({"engine": "C->S spacing function", "case": {k: frecs[40][k] for k in ("n", "dir", "rl", "ru", "vals")}})
     clean = [r for r in frecs if r["id"] not in failed and r["n"] >= 3]
     if clean:
-        a = copy.deepcopy(clean[0]); a["id"] = 1; a["vals"][2], a["vals"][3] = a["vals"][3], a["vals"][2]
+        a = copy.deepcopy(clean[0]); a["id"] = 1; a["steps"][2] = -a["steps"][2]
         b = copy.deepcopy(clean[0]); b["id"] = 2; b["vals"][-1] += 5
         mf, _ = judge([a, b], d, "mut")
         ok = ["Monotone" in mf.get(1, ()), "EndsExact" in mf.get(2, ())]
